@@ -1,4 +1,7 @@
 import CoxeterVerif.Lemmas.Codec
+import CoxeterVerif.Lemmas.CodecObj
+import CoxeterVerif.Lemmas.CodecText
+import CoxeterVerif.Lemmas.CodecPolygon
 /-!
   # C19 — GSD, repr and HOOMD representations round-trip the shape
 
@@ -104,6 +107,66 @@ theorem gsd_roundtrip (E : Ext ℝ) (s : Shape ℝ) (hv : Valid E s) (dim : Nat)
     simp [fromGsd, gsdSpec, Dict.has, getItem, Dict.get?, Val.isStr, asMat, asNum,
       mkSpheropolyhedron, bind, Except.bind, pure, Except.pure, h1, hr]
 
+/-- **C19 GSD dispatch, every class, every value of `dimensions`**: the class that comes back is
+`Spec.gsdDispatch` — for the six vertex based classes the `dimensions` argument is ignored (and a
+`rounding_radius` key, whatever its value — 0 included — selects the spheropolytope class); `Sphere` /
+`Circle` and `Ellipsoid` / `Ellipse` are told apart by `dimensions == 2` alone; the two-key spec of an
+`Ellipse` read with `dimensions ≠ 2` raises `KeyError` (no `c`). -/
+theorem gsd_dispatch (E : Ext ℝ) (s : Shape ℝ) (hv : Valid E s) (dim : Nat) :
+    match Spec.gsdDispatch dim (E.isConvex s.verts) s.cls with
+    | some c => ∃ s', fromGsd E (gsdSpec s) dim = .ok s' ∧ s'.cls = c ∧ s'.verts = s.verts ∧
+        (c ≠ .ellipse → s'.radii = s.radii)
+    | none => fromGsd E (gsdSpec s) dim = .error "KeyError" := by
+  cases s with
+  | circle r c =>
+    have hr : (0:ℝ) < r := hv
+    by_cases hd : dim = 2
+    · exact ⟨.circle r V3.zero, by simp [fromGsd, gsdSpec, Dict.has, getItem, Dict.get?, Val.isStr, asNum, mkCircle, bind,
+        Except.bind, hr, hd], by simp [Shape.cls, hd], rfl, fun _ => rfl⟩
+    · exact ⟨.sphere r V3.zero, by simp [fromGsd, gsdSpec, Dict.has, getItem, Dict.get?, Val.isStr, asNum, mkSphere, bind,
+        Except.bind, hr, hd], by simp [Shape.cls, hd], rfl, fun _ => rfl⟩
+  | sphere r c =>
+    have hr : (0:ℝ) < r := hv
+    by_cases hd : dim = 2
+    · exact ⟨.circle r V3.zero, by simp [fromGsd, gsdSpec, Dict.has, getItem, Dict.get?, Val.isStr, asNum, mkCircle, bind,
+        Except.bind, hr, hd], by simp [Shape.cls, hd], rfl, fun _ => rfl⟩
+    · exact ⟨.sphere r V3.zero, by simp [fromGsd, gsdSpec, Dict.has, getItem, Dict.get?, Val.isStr, asNum, mkSphere, bind,
+        Except.bind, hr, hd], by simp [Shape.cls, hd], rfl, fun _ => rfl⟩
+  | ellipse a b c =>
+    obtain ⟨ha, hb⟩ := hv
+    by_cases hd : dim = 2
+    · simp only [Spec.gsdDispatch, Shape.cls, hd, if_true]
+      exact ⟨.ellipse a b V3.zero, by simp [fromGsd, gsdSpec, Dict.has, getItem, Dict.get?, Val.isStr, asNum, mkEllipse,
+        bind, Except.bind, ha, hb], rfl, rfl, fun _ => rfl⟩
+    · simp only [Spec.gsdDispatch, Shape.cls, hd, if_false]
+      simp [fromGsd, gsdSpec, Dict.has, getItem, Dict.get?, Val.isStr, asNum, bind, Except.bind, hd]
+  | ellipsoid a b c cen =>
+    obtain ⟨ha, hb, hc⟩ := hv
+    by_cases hd : dim = 2
+    · exact ⟨.ellipse a b V3.zero, by simp [fromGsd, gsdSpec, Dict.has, getItem, Dict.get?, Val.isStr, asNum, mkEllipse,
+        bind, Except.bind, ha, hb, hd], by simp [Shape.cls, hd], rfl, fun h => by
+          simp [hd] at h⟩
+    · exact ⟨.ellipsoid a b c V3.zero, by simp [fromGsd, gsdSpec, Dict.has, getItem, Dict.get?, Val.isStr, asNum,
+        mkEllipsoid, bind, Except.bind, ha, hb, hc, hd], by simp [Shape.cls, hd], rfl, fun _ => rfl⟩
+  | polygon vs n =>
+    obtain ⟨s', h1, h2⟩ := gsd_roundtrip E (.polygon vs n) hv dim (fun d h => by cases h)
+    exact ⟨s', h1, h2.cls, h2.verts, fun _ => h2.radii⟩
+  | convexPolygon vs n =>
+    obtain ⟨s', h1, h2⟩ := gsd_roundtrip E (.convexPolygon vs n) hv dim (fun d h => by cases h)
+    exact ⟨s', h1, h2.cls, h2.verts, fun _ => h2.radii⟩
+  | spheropolygon vs r n =>
+    obtain ⟨s', h1, h2⟩ := gsd_roundtrip E (.spheropolygon vs r n) hv dim (fun d h => by cases h)
+    exact ⟨s', h1, h2.cls, h2.verts, fun _ => h2.radii⟩
+  | polyhedron vs f =>
+    obtain ⟨s', h1, h2⟩ := gsd_roundtrip E (.polyhedron vs f) hv dim (fun d h => by cases h)
+    exact ⟨s', h1, h2.cls, h2.verts, fun _ => h2.radii⟩
+  | convexPolyhedron vs f =>
+    obtain ⟨s', h1, h2⟩ := gsd_roundtrip E (.convexPolyhedron vs f) hv dim (fun d h => by cases h)
+    exact ⟨s', h1, h2.cls, h2.verts, fun _ => h2.radii⟩
+  | spheropolyhedron vs r =>
+    obtain ⟨s', h1, h2⟩ := gsd_roundtrip E (.spheropolyhedron vs r) hv dim (fun d h => by cases h)
+    exact ⟨s', h1, h2.cls, h2.verts, fun _ => h2.radii⟩
+
 /-- externals used by the examples: any array of ≥ 3 rows is planar and simple, cycles of at most
 four points are convex, the reorder leaves them alone, any normal is accepted, every point set
 is its own hull with one (dummy) face. -/
@@ -128,6 +191,18 @@ example : Valid exE (.polygon exRect ⟨0, 0, -1⟩) ∧ Valid exE (.spheropolyg
   refine ⟨⟨by simp [exE, exRect], rfl, fun _ => rfl, norm_ez, rfl⟩,
     ⟨by norm_num, by simp [exE, exRect], by simp [exE, exRect], rfl, norm_ez, rfl⟩,
     ⟨by norm_num, by norm_num, by norm_num⟩, ⟨by simp [exE, exTetV], by norm_num⟩⟩
+
+/-- rounding radius exactly 0 (legal: only negative radii are refused) still decodes to the
+spheropolytope classes — the dispatch looks at the PRESENCE of the key (seeded change r1-C19-1 tested
+its truthiness) -/
+example : Valid exE (.spheropolygon exRect 0 ⟨0, 0, -1⟩) ∧ Valid exE (.spheropolyhedron exTetV 0) :=
+  ⟨⟨le_refl _, by simp [exE, exRect], by simp [exE, exRect], rfl, norm_ez, rfl⟩, ⟨by simp [exE, exTetV], le_refl _⟩⟩
+
+example : ∃ s', fromGsd exE (gsdSpec (.spheropolygon exRect 0 ⟨0, 0, -1⟩)) 7 = .ok s' ∧ s'.cls = .spheropolygon := by
+  have h := gsd_dispatch exE (.spheropolygon exRect 0 ⟨0, 0, -1⟩)
+    ⟨le_refl _, by simp [exE, exRect], by simp [exE, exRect], rfl, norm_ez, rfl⟩ 7
+  obtain ⟨s', h1, h2, -⟩ := h
+  exact ⟨s', h1, h2⟩
 
 /-- **non-convex cycle → `Polygon`.** The `ConvexPolygon` attempt raises `ValueError`, the fallback
 constructs the general polygon on the same vertices. -/
@@ -228,6 +303,56 @@ theorem repr_roundtrip (E : Ext ℝ) (s : Shape ℝ) (hv : Valid E s) :
 
 example : Valid exE (.convexPolygon exRect ⟨0, 0, -1⟩) ∧ Valid exE (.convexPolyhedron exTetV [[0, 2, 1]]) :=
   ⟨⟨by simp [exE, exRect], rfl, by simp [exE, exRect], rfl, norm_ez, rfl⟩, by simp [Valid, exE, exTetV]⟩
+
+/-! ### repr at the level of the printed text -/
+
+/-- **the evaluator covers every token `__repr__` emits**: for every shape of the ten classes (any
+number of vertices / faces, negative coordinates printed with a unary minus, nested lists, integer
+index lists), reading the printed tokens back gives exactly the constructor call `reprCall s` — the
+keyword names, their order, and every number. `RealFmt`: every number is finite (a real). -/
+theorem repr_text_roundtrip (nk : NumFmt ℝ) (hnk : Spec.RealFmt nk) (s : Shape ℝ) :
+    parseCall (reprTokens nk s) = .ok (reprCall s) :=
+  parseCall_printCall hnk _ (reprCall_argOk s)
+
+/-- **C19 repr round trip on the text**: `eval(repr(shape))` (tokens in, object out). -/
+theorem repr_eval_text (E : Ext ℝ) (nk : NumFmt ℝ) (hnk : Spec.RealFmt nk) (s : Shape ℝ) (hv : Valid E s) :
+    ∃ s', evalText E (reprTokens nk s) = .ok s' ∧ Spec.ReprRoundTrip s s' := by
+  obtain ⟨s', h1, h2⟩ := repr_roundtrip E s hv
+  exact ⟨s', by simp only [evalText, repr_text_roundtrip nk hnk s, h1], h2⟩
+
+/-- the sign classifier of the examples: negative numbers print with a minus sign -/
+noncomputable def C19.exFmt : NumFmt ℝ := fun x => .fin (decide (x < 0))
+
+example : Spec.RealFmt exFmt := fun x => ⟨decide (x < 0), rfl⟩
+
+/-- the text of a polygon in the half space x < 0: minus signs, nested lists -/
+example : reprTokens exFmt (.polygon [⟨-1, 0, 0⟩, ⟨-2, 0, 0⟩, ⟨-2, 1, 0⟩] ⟨0, 0, 1⟩) =
+    [.name "coxeter.shapes.Polygon", .lpar, .name "vertices", .eq,
+      .lbr, .lbr, .minus, .num (- -1), .comma, .num 0, .comma, .num 0, .rbr, .comma,
+            .lbr, .minus, .num (- -2), .comma, .num 0, .comma, .num 0, .rbr, .comma,
+            .lbr, .minus, .num (- -2), .comma, .num 1, .comma, .num 0, .rbr, .rbr, .comma,
+      .name "normal", .eq, .lbr, .num 0, .comma, .num 0, .comma, .num 1, .rbr, .rpar] := by
+  have h1 : decide ((1:ℝ) < 0) = false := by norm_num
+  simp [h1, reprTokens, printCall, reprCall, commaSep, printKw, printVal, printList, prNum, exFmt, rows, v3list]
+
+/-- **non-finite numbers**: a radius that `float.__repr__` prints as `inf` / `-inf` / `nan` appears in
+the text as a bare NAME; evaluating it in an environment that binds only `coxeter` is a `NameError`
+(`Circle(inf)`, `Sphere(inf)` pass their constructors: `inf > 0`). The property quantifies over the
+generated (finite) shapes, where this cannot happen (`repr_eval_text`). -/
+theorem repr_nonfinite_name_error (E : Ext ℝ) (nk : NumFmt ℝ) (r : ℝ) (c : V3 ℝ)
+    (h : nk r = .nan ∨ ∃ b, nk r = .inf b) :
+    evalText E (reprTokens nk (.circle r c)) = .error "NameError" ∧
+    evalText E (reprTokens nk (.sphere r c)) = .error "NameError" := by
+  rcases h with h | ⟨b, h⟩
+  · constructor <;>
+      simp [evalText, reprTokens, printCall, reprCall, commaSep, printKw, printVal, prNum, h, parseCall,
+        sepBy, parseKw, parseArg, parseNumber]
+  · cases b <;> constructor <;>
+      simp [evalText, reprTokens, printCall, reprCall, commaSep, printKw, printVal, prNum, h, parseCall,
+        sepBy, parseKw, parseArg, parseNumber]
+
+example : (fun _ => NumKind.inf false : NumFmt ℝ) 1 = .nan ∨ ∃ b, (fun _ => NumKind.inf false : NumFmt ℝ) 1 = .inf b :=
+  Or.inr ⟨false, rfl⟩
 
 /-! ## to_json -/
 
@@ -488,3 +613,232 @@ theorem hoomd_spheropolygon_not_centred_fails :
   · simp [Spec.coords, Spec.centred, rows, unitSquare, h2c] at hv
   · simp [Spec.coords, Spec.centred, rows, unitSquare, h2c] at hv
 
+
+/-! ## to_hoomd with the measure models of C01 / C02 as getters, on objects that carry their caches
+
+`CPObj` / `PHObj` (`Model/Codec.lean`) hold what the real getters read: `_vertices`, the cached
+`_centroid`, `_volume`, simplex normals of a `ConvexPolyhedron`; `_vertices`, `_equations` of a
+`Polyhedron`.  `measCP` / `measPH` are the values a FRESHLY CONSTRUCTED object on a vertex array
+reports (C01 / C02 measure models).  The only hypothesis is the surface certificate of C01 / C02
+(`Closed` / `Closed0`: the simplices bound a solid — checked per run by `chainCheck`), which is what
+makes "centroid" commute with translations. -/
+
+/-- **`Polygon.to_hoomd` / `ConvexPolygon.to_hoomd`, measured** (getters = the measure model of C04:
+`Poly2.centroid`, `Poly2.area`, `Poly2.inertiaTensor` with the stored normal `n` and the two kabsch
+matrices): vertices (x, y) = input − centroid, `centroid` = 0, `area` and `moment_inertia` = the
+model's values on the centred vertex set, shape restored.  Polygons cache nothing, so the state is
+the vertex array alone and the step is idempotent.  Hypothesis: the centroid getter commutes with
+translations AT this vertex array (`polygon_centroid_equivariant`: true for planar cycles). -/
+theorem hoomd_centred_polygon_measured (n : V3 ℝ) (R R2 : M3 ℝ) (vs : List (V3 ℝ))
+    (hM : Spec.EquivariantAt (measPolygon n R R2) vs) :
+    ∃ d, polygonToHoomd (measPolygon n R R2) ⟨vs, V3.zero⟩ = .ok (d, ⟨vs, V3.zero⟩) ∧
+      Spec.HoomdCentred (measPolygon n R R2) 2 "area" true vs d ∧
+      Dict.get? d "sweep_radius" = some (.num 0) ∧
+      (∀ d' s', polygonToHoomd (measPolygon n R R2) ⟨vs, V3.zero⟩ = .ok (d', s') →
+        polygonToHoomd (measPolygon n R R2) s' = .ok (d', s')) := by
+  have hr := restore_recomputed_at hM V3.zero
+  have hc := centre_recomputed (measPolygon n R R2) vs V3.zero
+  have h0 := cen_centred_at hM
+  have hstate : setCentroid (measPolygon n R R2) .recomputed
+      (setCentroid (measPolygon n R R2) .recomputed ⟨vs, V3.zero⟩ V3.zero) ((measPolygon n R R2).cen vs)
+        = ⟨vs, V3.zero⟩ := by
+    have : (setCentroid (measPolygon n R R2) .recomputed
+      (setCentroid (measPolygon n R R2) .recomputed ⟨vs, V3.zero⟩ V3.zero) ((measPolygon n R R2).cen vs)).cache
+        = V3.zero := rfl
+    cases hs : setCentroid (measPolygon n R R2) .recomputed
+      (setCentroid (measPolygon n R R2) .recomputed ⟨vs, V3.zero⟩ V3.zero) ((measPolygon n R R2).cen vs) with
+    | mk v c => rw [hs] at hr this; simp only at hr this; rw [hr, this]
+  have hcall : polygonToHoomd (measPolygon n R R2) ⟨vs, V3.zero⟩ = .ok
+      ([("vertices", .mat ((setCentroid (measPolygon n R R2) .recomputed ⟨vs, V3.zero⟩ V3.zero).verts.map
+            fun v => [v.x, v.y])),
+        ("centroid", .vec (v3list ((measPolygon n R R2).cen
+            (setCentroid (measPolygon n R R2) .recomputed ⟨vs, V3.zero⟩ V3.zero).verts))),
+        ("area", .num ((measPolygon n R R2).scalar "area"
+            (setCentroid (measPolygon n R R2) .recomputed ⟨vs, V3.zero⟩ V3.zero).verts)),
+        ("moment_inertia", .mat ((measPolygon n R R2).tensor
+            (setCentroid (measPolygon n R R2) .recomputed ⟨vs, V3.zero⟩ V3.zero).verts)),
+        ("sweep_radius", .num (lit 0))], ⟨vs, V3.zero⟩) := by
+    rw [polygonToHoomd_eq]; simp only [hstate]
+  refine ⟨_, hcall, ?_, ?_, ?_⟩
+  · rw [hc, h0]
+    refine ⟨?_, ?_, ?_, fun _ => ?_⟩ <;> simp [Dict.get?, Spec.coords, v3list_zero]
+  · simp [Dict.get?]
+  · intro d' s' h
+    rw [hcall] at h
+    obtain ⟨rfl, rfl⟩ := Prod.mk.inj (Except.ok.inj h)
+    exact hcall
+
+/-- **`Polygon.to_hoomd`, measured, under the certificates of C04** (no equivariance hypothesis left):
+`R` a frame for the stored normal, vertices and a triangulation bounded by the cycle in the plane
+`n · v = d`, non-zero area ⇒ the dict describes the centred polygon with the values of the C04
+measure model, and a second call returns the same dict and state. -/
+theorem hoomd_centred_polygon_certified {vs : List (V3 ℝ)} {n : V3 ℝ} {dd : ℝ} {R : M3 ℝ} (R2 : M3 ℝ)
+    {Ts : List (Tri ℝ)} (hF : IsFrame R n) (hpl : InPlane n dd vs) (hT : TrisInPlane n dd Ts)
+    (h : Triangulates vs Ts) (hA : Spec3.area n Ts ≠ 0) :
+    ∃ d, polygonToHoomd (measPolygon n R R2) ⟨vs, V3.zero⟩ = .ok (d, ⟨vs, V3.zero⟩) ∧
+      Spec.HoomdCentred (measPolygon n R R2) 2 "area" true vs d ∧
+      polygonToHoomd (measPolygon n R R2) ⟨vs, V3.zero⟩ = .ok (d, ⟨vs, V3.zero⟩) := by
+  obtain ⟨d, h1, h2, -, -⟩ := hoomd_centred_polygon_measured n R R2 vs
+    (polygon_centroid_equivariant R2 hF hpl hT h hA)
+  exact ⟨d, h1, h2, h1⟩
+
+/-- the certificates are satisfiable: the unit square of C04 with its two-triangle fan, `R = 1` -/
+example : IsFrame (M3.one : M3 ℝ) ⟨0, 0, 1⟩ ∧ InPlane ⟨0, 0, 1⟩ 0 exSq ∧ TrisInPlane ⟨0, 0, 1⟩ 0 exSqT ∧
+    Triangulates exSq exSqT ∧ Spec3.area ⟨0, 0, 1⟩ exSqT ≠ 0 := by
+  refine ⟨⟨isRot_one, by simp [M3.mulVec, M3.one, Scalar.lit]⟩, ?_, ?_, ?_, ?_⟩
+  · intro v hv
+    simp only [exSq, List.mem_cons, List.not_mem_nil, or_false] at hv
+    rcases hv with rfl | rfl | rfl | rfl <;> simp [V3.dot]
+  · intro t ht
+    simp only [exSqT, List.mem_cons, List.not_mem_nil, or_false] at ht
+    rcases ht with rfl | rfl <;> simp [V3.dot]
+  · intro φ hφ
+    have c := hφ ⟨0,0,0⟩ ⟨1,1,0⟩
+    simp [sumEdges, cycleEdges, exSq, exSqT, triEdges, Poly2.rotl] at c ⊢
+    linarith
+  · simp only [Spec3.area, exSqT]; unfold Spec3.triArea; unfold_model; norm_num
+
+/-- **`ConvexPolyhedron.to_hoomd`, measured**: on an object whose caches are fresh, the call returns
+the description of the CENTRED shape — vertices = input − centroid, `centroid` = (0,0,0), `volume` and
+`moment_inertia` = what the measure model of C01 computes on that centred vertex set — and leaves
+behind THE SAME OBJECT, every cache included (so nothing a later call reads has changed). -/
+theorem hoomd_centred_convex_polyhedron_measured (simp : List (Nat × Nat × Nat)) (f : List (List Nat))
+    (vs : List (V3 ℝ)) (hc : Closed (trisOf vs simp)) :
+    ∃ d, (CPObj.fresh simp f vs).toHoomd = .ok (d, CPObj.fresh simp f vs) ∧
+      Spec.HoomdCentred (measCP simp) 3 "volume" true vs d ∧
+      Dict.get? d "faces" = some (.idx f) ∧ Dict.get? d "sweep_radius" = some (.num 0) ∧
+      Dict.keys d = ["vertices", "faces", "centroid", "volume", "moment_inertia", "sweep_radius"] := by
+  have h0 : ((CPObj.fresh simp f vs).setCentroid V3.zero).centroid = V3.zero :=
+    CPObj.setCentroid_centroid simp f vs hc V3.zero
+  refine ⟨_, by rw [CPObj.toHoomd_eq]; simp only [CPObj.centre_restore simp f vs hc]; rfl, ?_⟩
+  rw [h0, CPObj.centre_fresh simp f vs hc]
+  refine ⟨⟨?_, ?_, ?_, fun _ => ?_⟩, ?_, ?_, ?_⟩ <;>
+    simp [Dict.get?, Dict.keys, Spec.coords, v3list_zero, rows, measCP, CPObj.fresh,
+      CPObj.inertiaTensor, CPObj.tris]
+
+/-- the four outward faces of the tetrahedron `exTetV` as index triples, and the tetrahedron itself -/
+def C19.exSimp : List (Nat × Nat × Nat) := [(0, 2, 1), (0, 1, 3), (1, 2, 3), (0, 3, 2)]
+def C19.exTet : Tet ℝ := ⟨⟨3, 3, 3⟩, ⟨4, 3, 3⟩, ⟨3, 4, 3⟩, ⟨3, 3, 4⟩⟩
+
+theorem C19.exTet_closed : Closed (trisOf exTetV exSimp) := by
+  refine ⟨[exTet], ?_, ?_⟩
+  · have : trisOf exTetV exSimp = [exTet].flatMap Tet.bdry := by
+      simp [trisOf, exTetV, exSimp, exTet, Tet.bdry]
+    rw [this]; exact ChainEq.refl _
+  · unfold Spec.vol Spec.tetVol exTet; unfold_model; norm_num
+
+example : ∃ d, (CPObj.fresh exSimp [[0, 2, 1], [0, 1, 3], [1, 2, 3], [0, 3, 2]] exTetV).toHoomd
+      = .ok (d, CPObj.fresh exSimp [[0, 2, 1], [0, 1, 3], [1, 2, 3], [0, 3, 2]] exTetV) ∧
+    Spec.HoomdCentred (measCP exSimp) 3 "volume" true exTetV d := by
+  obtain ⟨d, h1, h2, -⟩ := hoomd_centred_convex_polyhedron_measured exSimp _ exTetV exTet_closed
+  exact ⟨d, h1, h2⟩
+
+/-- what a history of `to_hoomd` calls and centroid moves does to the vertex array: the positions at
+which `to_hoomd` is asked, and the final position (`cen` = the centroid getter) -/
+noncomputable def C19.Spec.track (cen : List (V3 ℝ) → V3 ℝ) : List (HOp ℝ) → List (V3 ℝ) → List (List (V3 ℝ)) × List (V3 ℝ)
+  | [], vs => ([], vs)
+  | .toHoomd :: r, vs => (vs :: (C19.Spec.track cen r vs).1, (C19.Spec.track cen r vs).2)
+  | .setCentroid v :: r, vs => C19.Spec.track cen r (vs.map fun p => p + (v - cen vs))
+
+/-- **any history** of `to_hoomd` calls and centroid-setter moves on a `ConvexPolyhedron`: every
+`to_hoomd` in it returns the description of the shape AS IT IS THEN, centred; the object stays fresh
+(it is the object a constructor call on its current vertices would give). In particular
+`to_hoomd` twice = once. -/
+theorem hoomd_convex_polyhedron_history (simp : List (Nat × Nat × Nat)) (f : List (List Nat))
+    (ops : List (HOp ℝ)) :
+    ∀ (vs : List (V3 ℝ)), Closed (trisOf vs simp) →
+      ∃ ds, CPObj.run ops (CPObj.fresh simp f vs)
+          = .ok (ds, CPObj.fresh simp f (Spec.track (measCP simp).cen ops vs).2) ∧
+        List.Forall₂ (fun p d => Spec.HoomdCentred (measCP simp) 3 "volume" true p d)
+          (Spec.track (measCP simp).cen ops vs).1 ds := by
+  induction ops with
+  | nil => intro vs _; exact ⟨[], rfl, List.Forall₂.nil⟩
+  | cons op r ih =>
+    intro vs hc
+    cases op with
+    | toHoomd =>
+      obtain ⟨d, h1, h2, -⟩ := hoomd_centred_convex_polyhedron_measured simp f vs hc
+      obtain ⟨ds, h3, h4⟩ := ih vs hc
+      refine ⟨d :: ds, ?_, List.Forall₂.cons h2 h4⟩
+      simp only [CPObj.run, h1, h3, bind, Except.bind, pure, Except.pure, Spec.track]
+    | setCentroid v =>
+      have hc' := CPObj.closed_moved simp vs hc (v - (CPObj.fresh simp f vs).centroid)
+      obtain ⟨ds, h3, h4⟩ := ih _ hc'
+      refine ⟨ds, ?_, ?_⟩
+      · simp only [CPObj.run, CPObj.setCentroid_fresh simp f vs hc]
+        exact h3
+      · exact h4
+
+/-- **`to_hoomd` twice = once** (seeded change r2-C19-2: a restore step that forgets the caches
+breaks exactly this) -/
+theorem hoomd_convex_polyhedron_idempotent (simp : List (Nat × Nat × Nat)) (f : List (List Nat))
+    (vs : List (V3 ℝ)) (hc : Closed (trisOf vs simp)) :
+    ∃ d, CPObj.run [.toHoomd, .toHoomd] (CPObj.fresh simp f vs) = .ok ([d, d], CPObj.fresh simp f vs) := by
+  obtain ⟨d, h1, -⟩ := hoomd_centred_convex_polyhedron_measured simp f vs hc
+  exact ⟨d, by simp only [CPObj.run, h1, bind, Except.bind, pure, Except.pure]⟩
+
+/-- **`ConvexSpheropolyhedron.to_hoomd`, measured**: vertices = input − centroid of the core (C01
+centroid), `centroid` = [0,0,0], `sweep_radius` = r, `volume` = the rounded body's volume getter on
+the CENTRED core; the core object is left as it was, caches included. -/
+theorem hoomd_centred_spheropolyhedron_measured (vol : CPObj ℝ → ℝ → ℝ) (r : ℝ)
+    (simp : List (Nat × Nat × Nat)) (f : List (List Nat)) (vs : List (V3 ℝ)) (hc : Closed (trisOf vs simp)) :
+    ∃ d, CPObj.spheroToHoomd vol r (CPObj.fresh simp f vs) = .ok (d, CPObj.fresh simp f vs) ∧
+      Dict.get? d "vertices" = some (.mat (rows (Spec.centred vs ((measCP simp).cen vs)))) ∧
+      Dict.get? d "centroid" = some (.vec [0, 0, 0]) ∧
+      Dict.get? d "sweep_radius" = some (.num r) ∧
+      Dict.get? d "volume" =
+        some (.num (vol (CPObj.fresh simp f (Spec.centred vs ((measCP simp).cen vs))) r)) := by
+  refine ⟨_, by rw [CPObj.spheroToHoomd_eq]; simp only [CPObj.centre_restore simp f vs hc]; rfl, ?_⟩
+  rw [CPObj.centre_fresh simp f vs hc]
+  refine ⟨?_, ?_, ?_, ?_⟩ <;> simp [Dict.get?, measCP, CPObj.fresh]
+
+/-- **`Polyhedron.to_hoomd`, measured** (general mesh; `tri` = the triangles polytri yields for the
+faces): vertices = input − Eberly centroid, `centroid` = (0,0,0), `volume` (from the REFRESHED
+`_equations` and the face areas) and `moment_inertia` as the measure model of C02 computes them on
+the centred vertex set; the object, `_equations` included, is left as it was. -/
+theorem hoomd_centred_polyhedron_measured (faces : List (List Nat)) (tri : List (Nat × Nat × Nat))
+    (vs : List (V3 ℝ)) (hc : Closed0 (trisOf vs tri)) :
+    ∃ d, (PHObj.fresh faces tri vs).toHoomd = .ok (d, PHObj.fresh faces tri vs) ∧
+      Spec.HoomdCentred (measPH faces tri) 3 "volume" true vs d ∧
+      Dict.get? d "faces" = some (.idx faces) ∧ Dict.get? d "sweep_radius" = some (.num 0) ∧
+      Dict.keys d = ["vertices", "faces", "centroid", "volume", "moment_inertia", "sweep_radius"] := by
+  have h0 : ((PHObj.fresh faces tri vs).setCentroid V3.zero).centroid = V3.zero :=
+    PHObj.setCentroid_centroid faces tri vs hc V3.zero
+  refine ⟨_, by rw [PHObj.toHoomd_eq]; simp only [PHObj.centre_restore faces tri vs hc]; rfl, ?_⟩
+  rw [h0, PHObj.centre_fresh faces tri vs]
+  refine ⟨⟨?_, ?_, ?_, fun _ => ?_⟩, ?_, ?_, ?_⟩ <;>
+    simp [Dict.get?, Dict.keys, Spec.coords, v3list_zero, rows, measPH, PHObj.fresh]
+
+theorem hoomd_polyhedron_history (faces : List (List Nat)) (tri : List (Nat × Nat × Nat))
+    (ops : List (HOp ℝ)) :
+    ∀ (vs : List (V3 ℝ)), Closed0 (trisOf vs tri) →
+      ∃ ds, PHObj.run ops (PHObj.fresh faces tri vs)
+          = .ok (ds, PHObj.fresh faces tri (Spec.track (measPH faces tri).cen ops vs).2) ∧
+        List.Forall₂ (fun p d => Spec.HoomdCentred (measPH faces tri) 3 "volume" true p d)
+          (Spec.track (measPH faces tri).cen ops vs).1 ds := by
+  induction ops with
+  | nil => intro vs _; exact ⟨[], rfl, List.Forall₂.nil⟩
+  | cons op r ih =>
+    intro vs hc
+    cases op with
+    | toHoomd =>
+      obtain ⟨d, h1, h2, -⟩ := hoomd_centred_polyhedron_measured faces tri vs hc
+      obtain ⟨ds, h3, h4⟩ := ih vs hc
+      refine ⟨d :: ds, ?_, List.Forall₂.cons h2 h4⟩
+      simp only [PHObj.run, h1, h3, bind, Except.bind, pure, Except.pure, Spec.track]
+    | setCentroid v =>
+      have hc' := PHObj.closed_moved tri vs hc (v - (PHObj.fresh faces tri vs).centroid)
+      obtain ⟨ds, h3, h4⟩ := ih _ hc'
+      exact ⟨ds, by simp only [PHObj.run, PHObj.setCentroid_fresh]; exact h3, h4⟩
+
+example : Closed0 (trisOf exTetV exSimp) := exTet_closed.closed0
+
+/-- a history on the tetrahedron: export, move the centroid to (10, −20, 5), export twice -/
+example : ∃ ds, PHObj.run [.toHoomd, .setCentroid ⟨10, -20, 5⟩, .toHoomd, .toHoomd]
+      (PHObj.fresh [[0, 2, 1], [0, 1, 3], [1, 2, 3], [0, 3, 2]] exSimp exTetV) = .ok (ds,
+        PHObj.fresh [[0, 2, 1], [0, 1, 3], [1, 2, 3], [0, 3, 2]] exSimp
+          (Spec.track (measPH [[0, 2, 1], [0, 1, 3], [1, 2, 3], [0, 3, 2]] exSimp).cen
+            [.toHoomd, .setCentroid ⟨10, -20, 5⟩, .toHoomd, .toHoomd] exTetV).2) := by
+  obtain ⟨ds, h, -⟩ := hoomd_polyhedron_history [[0, 2, 1], [0, 1, 3], [1, 2, 3], [0, 3, 2]] exSimp
+    [.toHoomd, .setCentroid ⟨10, -20, 5⟩, .toHoomd, .toHoomd] exTetV exTet_closed.closed0
+  exact ⟨ds, h⟩
